@@ -92,6 +92,18 @@ Clauses(T, e, gonePrev) ==
                               { i \in 1..T.n : ~ \E j \in 1..T.n : <<j,i>> \in (ToSet(e.flat.sd) \cup X) } = ToSet(e.flat.P),
           data     |-> ToSet(e.data.gained) = ToSet(e.data.returned) /\ Len(e.data.gained) = Len(e.data.returned) /\ e.data.synced ]
 
+\* at termination of a run whose displayed regions always contained the (scripted) truth: the accuracy statements of C01 / C05,
+\* evaluated on relations of the TRUTH logged by the harness (exact integer arithmetic):
+\*   wd <<j,i>> : mu_j weakly dominates mu_i            ex <<j,i>> : mu_j exceeds mu_i by more than eps in every facet (gap_i > eps)
+\*   sd <<j,i>> : mu_j + slack dominates mu_i           mo <<j,i>> : mu_j dominates mu_i by more than the slack
+Accurate(T) ==
+   LET F == T.final  Pf == ToSet(F.P)  Dn == 1..T.n IN
+   IF ~F.judge THEN TRUE
+   ELSE IF Fam(T.alg) = "vogp"
+        THEN /\ \A i \in Dn : (~ \E j \in Dn \ {i} : <<j,i>> \in ToSet(F.sd)) => i \in Pf
+             /\ \A i \in Pf : \A j \in Pf \ {i} : <<j,i>> \notin ToSet(F.mo)
+        ELSE /\ \A i \in Dn \ Pf : \E j \in Pf : <<j,i>> \in ToSet(F.wd)
+             /\ \A i \in Pf : \A j \in Dn \ {i} : <<j,i>> \notin ToSet(F.ex)
 AllTrue(c) == \A k \in DOMAIN c : c[k]
 RECURSIVE GoneUpTo(_, _)
 GoneUpTo(T, k) == IF k = 0 THEN {} ELSE GoneUpTo(T, k-1) \cup (ToSet(T.steps[k].pre.S) \ ToSet(T.steps[k].post.S))
@@ -100,7 +112,8 @@ Init == tid \in 1..Len(Traces) /\ l = 1
 Next == /\ l <= Len(Traces[tid].steps) + 1
         /\ LET T == Traces[tid] IN
            IF l = Len(T.steps) + 1
-           THEN /\ PrintT(<<"DONE", T.tid, Len(T.steps)>>) /\ l' = l + 1 /\ UNCHANGED tid
+           THEN /\ (IF Accurate(T) THEN TRUE ELSE PrintT(<<"REJECT", T.tid, Len(T.steps), [accurate |-> FALSE]>>))
+                /\ PrintT(<<"DONE", T.tid, Len(T.steps)>>) /\ l' = l + 1 /\ UNCHANGED tid
            ELSE LET c == Clauses(T, T.steps[l], IF T.alg = "VOGP_AD" THEN {} ELSE GoneUpTo(T, l-1)) IN
                 /\ IF AllTrue(c) THEN TRUE ELSE PrintT(<<"REJECT", T.tid, l, c>>)
                 /\ l' = l + 1 /\ UNCHANGED tid
